@@ -160,7 +160,14 @@ def run(ctx):
             "is not what the code does", where(hor, hor.node))
 
     # ---- R5 buffer kernel
-    r = ctx.rule("R5", "buffer growth: x16 up to 1 MiB else x2; capped by max; fails only at the cap; refetches", 5, "E")
+    buffer_kernel(ctx, ctx.rule("R5", "buffer growth: x16 up to 1 MiB else x2; capped by max; fails only at the cap; refetches", 5, "E"))
+
+
+def buffer_kernel(ctx, r):
+    """shared with C12.R7"""
+    prog = ctx.prog
+    hfr = ctx.func(CONS + "._handle_fetch_response")
+    rf = ctx.func(CONS + "._retry_fetch")
     cfr = ctx.cfg(hfr)
     ffr = ctx.facts(hfr)
     exc = [n for n in cfr.nodes if n.kind == "except" and "ConsumerFetchSizeTooSmall" in norm(n.stmt.type)]
@@ -198,6 +205,7 @@ def run(ctx):
             "after growing the buffer the same offset is not refetched", where(hfr, exc[0].stmt))
     r.check(bool(ebs) and not any(x in cfr.reach([ebs[0].id]) for x in refetch), "%s#no-refetch-after-failure" % hfr.qname,
             "failing arm still schedules a refetch", where(hfr, exc[0].stmt))
+
 
 
 MUTANTS = [
